@@ -100,43 +100,115 @@ def bcast_value(arr_shape, flat, sample_shape):
     return f
 
 
-def coverage_cases(tier):
+def coverage_cases(tier, fi=None):
+    """[(sample_shape, shift shape, flat shift values)].  Besides the small shapes, one case per integer literal that the
+    function compares a size/length against (a vectorised fast path behind `shift.size > 32`, say) is generated on the far
+    side of that literal, so that both arms of such a test are examined."""
+    import ast as _ast
     F_ = Fraction
-    sample_shape = (2, 3)
+    ss = (2, 3)
     cases = []
-    cases.append(((), [F_(5, 2)]))
-    cases.append(((), [F_(-7, 2)]))
-    cases.append(((), [F_(20)]))            # |s| >= N
-    cases.append(((2,), [F_(3, 2), F_(-2)]))
-    cases.append(((2, 1), [F_(1), F_(-5, 2)]))
-    cases.append(((1, 3), [F_(1, 2), F_(-1, 2), F_(3)]))
-    cases.append(((2, 3), [F_(1), F_(-1), F_(5, 2), F_(-5, 2), F_(0), F_(4)]))
-    cases.append(((1,), [F_(-3, 2)]))
-    cases.append(((1, 1), [F_(7, 2)]))
+    cases.append((ss, (), [F_(5, 2)]))
+    cases.append((ss, (), [F_(-7, 2)]))
+    cases.append((ss, (), [F_(20)]))            # |s| >= N
+    cases.append((ss, (2,), [F_(3, 2), F_(-2)]))
+    cases.append((ss, (2, 1), [F_(1), F_(-5, 2)]))
+    cases.append((ss, (1, 3), [F_(1, 2), F_(-1, 2), F_(3)]))
+    cases.append((ss, (2, 3), [F_(1), F_(-1), F_(5, 2), F_(-5, 2), F_(0), F_(4)]))
+    cases.append((ss, (1,), [F_(-3, 2)]))
+    cases.append((ss, (1, 1), [F_(7, 2)]))
+    sizes = {40}
+    if fi is not None:
+        for n in _ast.walk(fi.node):
+            if isinstance(n, _ast.Compare):
+                for c in [n.left] + list(n.comparators):
+                    if isinstance(c, _ast.Constant) and isinstance(c.value, int) and not isinstance(c.value, bool) and 4 <= c.value <= 512:
+                        sizes.add(c.value + 1)
+                        sizes.add(max(c.value - 1, 2))
+    cyc = [F_(3, 2), F_(-2), F_(5, 2), F_(1), F_(-1, 2), F_(0), F_(17), F_(-16)]
+    for k in sorted(sizes):
+        if k <= 6:
+            continue
+        cases.append(((k,), (k,), [cyc[i % len(cyc)] for i in range(k)]))
+    big = max(sizes)
+    if big % 2 == 0 or True:
+        a = 2
+        b = -(-big // 2)
+        cases.append(((a, b), (a, b), [cyc[(3 * i) % len(cyc)] for i in range(a * b)]))
+        cases.append(((a, b), (1, b), [cyc[(i + 1) % len(cyc)] for i in range(b)]))
     if tier == "thorough":
-        cases.append(((2,), [F_(-18), F_(17)]))
-        cases.append(((1, 3), [F_(-16), F_(16), F_(1, 3)]))
-        cases.append(((2, 3), [F_(-1, 4), F_(1, 4), F_(15), F_(-15), F_(16), F_(-16)]))
-    return sample_shape, cases
+        cases.append((ss, (2,), [F_(-18), F_(17)]))
+        cases.append((ss, (1, 3), [F_(-16), F_(16), F_(1, 3)]))
+        cases.append((ss, (2, 3), [F_(-1, 4), F_(1, 4), F_(15), F_(-15), F_(16), F_(-16)]))
+    return cases
+
+
+def mask_cells(mask, which, n, sample_shape):
+    """Cells (t, elem) an np.where(mask, a, b) takes from the *scalar* side: mask broadcast against (n, *sample_shape)."""
+    full = (n,) + tuple(sample_shape)
+    if mask.ndim > len(full):
+        return None
+    shp = (1,) * (len(full) - mask.ndim) + tuple(mask.shape)
+    for a, b in zip(shp, full):
+        if a not in (1, b):
+            return None
+    strides, acc = [], 1
+    for s_ in reversed(shp):
+        strides.insert(0, 0 if s_ == 1 else acc)
+        acc *= s_
+    out = set()
+    for combo in itertools.product(*[range(k) for k in full]):
+        v = mask.items[sum(c * t for c, t in zip(combo, strides))]
+        if not isinstance(v, BoolV):
+            return None
+        takes_data = v.b if which == "true" else (not v.b)
+        if not takes_data:
+            out.add((combo[0], tuple(combo[1:])))
+    return out
 
 
 def run_coverage(ck, prog, fi, rule, make_args, n_time, target_pred, label, scale=1):
-    """Shared by C03/C04: evaluates `fi` for each concrete shift array and compares recorded stores with the
-    statement's zero set.  scale: samples (C03) or bins (C04) per unit of the given shift value."""
-    sample_shape, cases = coverage_cases(ck.run.tier)
+    """Shared by C03/C04: evaluates `fi` for each concrete shift array and compares the cells of the *returned* data that
+    were set to zero - through recorded index stores into the array the result holds, or through an np.where with an
+    explicit mask - with the statement's zero set.  scale: samples (C03) or bins (C04) per unit of the given shift value."""
+    cases = coverage_cases(ck.run.tier, fi)
     n_cases = 0
-    for shp, vals in cases:
+    for sample_shape, shp, vals in cases:
         n_cases += 1
-        tag = f"{label}: shift shape {shp or 'scalar'} values {[str(v) for v in vals]} on sample shape {sample_shape}, N={n_time}"
+        shown = [str(v) for v in vals[:8]] + (["..."] if len(vals) > 8 else [])
+        tag = f"{label}: shift shape {shp or 'scalar'} values {shown} on sample shape {sample_shape}, N={n_time}"
         ev = ck.evaluator(oracle=nonzero_shift_oracle())
         args, kw = make_args(shp, vals, sample_shape, n_time)
         out = ck.attempt(rule, fi.where, tag, "evaluates", lambda: ev.call(fi, args, kw), ev=ev, allowed_guards=[])
         if out is None:
             continue
-        stores = [t for t in ev.trace if t[0] == "store" and target_pred(t[1])]
+        res = out.attrs.get("_data") if isinstance(out, ObjV) else out
+        if not isinstance(res, Num):
+            ck.unk(rule, fi.where, tag, "the result holds one data array term", repr(res)[:120])
+            continue
         got = set()
         bad_store = None
+        # peel np.where(mask, data, 0) layers off the returned term
+        base = res.expr
+        masks = {t[1]: t for t in ev.trace if t[0] == "where-mask"}
+        n_masks = 0
+        while base.func == F["Where"] and base.args[0] in masks:
+            t = masks[base.args[0]]
+            other = t[5]
+            if not ((isinstance(other, Num) and other.expr == 0) or (isinstance(other, BoolV) and not other.b)):
+                bad_store = f"np.where fills with {other!r}, not zero"
+                break
+            cells = mask_cells(t[2], t[3], n_time, sample_shape)
+            if cells is None:
+                bad_store = "store index not understood"
+                break
+            got |= cells
+            n_masks += 1
+            base = base.args[1] if t[3] == "true" else base.args[2]
+        stores = [t for t in ev.trace if t[0] == "store" and target_pred(t[1]) and (t[1].expr == base or base.has(t[1].expr))]
         for _, arr, idx, val, node in stores:
+            if bad_store:
+                break
             if not (isinstance(val, Num) and val.expr == 0):
                 bad_store = f"stores a non-zero value {val!r}"
                 break
@@ -152,7 +224,7 @@ def run_coverage(ck, prog, fi, rule, make_args, n_time, target_pred, label, scal
         exp = expected_zero_set(lambda e: bcast_value(shp, [v * scale for v in vals], sample_shape)(e) if shp else vals[0] * scale,
                                 n_time, sample_shape)
         if bad_store == "store index not understood":
-            ck.unk(rule, fi.where, tag, "zero-fill stores are basic index stores", bad_store)
+            ck.unk(rule, fi.where, tag, "zero-fill stores are basic index stores or explicit masks", bad_store)
             continue
         if got is None:
             ck.same(rule, fi.where, tag, "zero-fill covers exactly the samples whose source lies outside the input", False, found=bad_store,
@@ -161,10 +233,10 @@ def run_coverage(ck, prog, fi, rule, make_args, n_time, target_pred, label, scal
         missing = sorted(exp - got)[:4]
         extra = sorted(got - exp)[:4]
         ck.same(rule, fi.where, tag,
-                "the zero-filled (time, element) set equals the statement's: first ceil(s) / last ceil(|s|) samples of every element the shift broadcasts to",
+                "the zero-filled (time, element) set of the returned data equals the statement's: first ceil(s) / last ceil(|s|) samples of every element the shift broadcasts to",
                 not missing and not extra and bad_store is None,
                 found=(bad_store or "") + (f" not zeroed: {missing}" if missing else "") + (f" zeroed but should be kept: {extra}" if extra else "")
-                + f" [{len(stores)} stores, {len(got)} cells]",
+                + f" [{len(stores)} stores, {n_masks} masks, {len(got)} cells]",
                 expected=f"{len(exp)} cells", nontrivial=True)
     ck.run.floor(rule, "zero-fill coverage cases", n_cases, 9)
 
@@ -181,10 +253,15 @@ def check(run, prog):
     # ------------------------------------------------------------------ R1: the multiplier
     scen = [("BasebandSignal", "complex128", Num(s), s, "samples"), ("Signal", "float64", Num(s), s, "samples"),
             ("BasebandSignal", "complex64", Num(sp.Symbol("sq", real=True) / Hz, kind="quantity"), sp.Symbol("sq", real=True) * SR, "time Quantity"),
-            ("DualPolarizationSignal", "complex128", Num(s), s, "samples")]
+            ("DualPolarizationSignal", "complex128", Num(s), s, "samples"),
+            ("Signal", "complex64", Num(sp.Symbol("sq", real=True) / Hz, kind="quantity"), sp.Symbol("sq", real=True) * SR, "time Quantity"),
+            ("IntensitySignal", "float64", Num(sp.Symbol("sq", real=True) / Hz, kind="quantity"), sp.Symbol("sq", real=True) * SR, "time Quantity"),
+            ("BasebandSignal:dask", "complex128", Num(s), s, "samples")]
     for clsname, dtype, shiftv, s_eff, what in scen:
-        z = make_signal(prog, clsname, nchan=2, dtype=dtype)
-        tag = f"[{clsname}, {dtype}, shift in {what}]"
+        backend = "dask" if clsname.endswith(":dask") else "numpy"
+        clsname = clsname.split(":")[0]
+        z = make_signal(prog, clsname, nchan=2, dtype=dtype, backend=backend)
+        tag = f"[{clsname}, {backend}, {dtype}, shift in {what}]"
         ev = ck.evaluator(oracle=nonzero_shift_oracle())
         out = ck.attempt("R1", fi.where, "time_shift(z, s) " + tag, "evaluates", lambda: ev.call(fi, [z, shiftv], {}), ev=ev, allowed_guards=[])
         if out is None:
@@ -209,6 +286,63 @@ def check(run, prog):
         bad = meta_same(z, out)
         ck.same("R4", fi.where, "ledger " + tag, "metadata unchanged (no override), same class", out.cls is z.cls and not bad,
                 found="; ".join(bad) or obj_summary(out), nontrivial=True)
+    # ------------------------------------------------------------------ R1 per-element shifts (array shift, symbolic N)
+    arr_cases = [((2, 3), (2,), [Fraction(3, 2), Fraction(-2)]), ((2, 3), (2, 1), [Fraction(1), Fraction(-5, 2)]),
+                 ((2, 3), (1, 3), [Fraction(1, 2), Fraction(-1, 2), Fraction(3)]),
+                 ((2, 3), (2, 3), [Fraction(1), Fraction(-1), Fraction(5, 2), Fraction(-5, 2), Fraction(1, 4), Fraction(4)]),
+                 ((2, 2), (2,), [Fraction(3, 2), Fraction(-2)]), ((2, 2), (1, 2), [Fraction(1, 2), Fraction(3)]), ((3,), (3,), [Fraction(1), Fraction(-7, 2), Fraction(2)]),
+                 ((2, 3, 2), (2,), [Fraction(5, 2), Fraction(-1)]), ((2, 3, 2), (2, 3), [Fraction(1), Fraction(2), Fraction(-3), Fraction(1, 2), Fraction(-1, 2), Fraction(7)])]
+    if run.tier == "quick":
+        arr_cases = arr_cases[:3] + arr_cases[4:6] + arr_cases[7:]
+    n_arr = 0
+    for backend in ("numpy", "dask"):
+        for sample_shape, shp, vals in (arr_cases if backend == "numpy" else arr_cases[:2]):
+            z = make_signal(prog, "Signal", extra=sample_shape, dtype="complex128", backend=backend)
+            tag = f"[{backend}, sample shape {sample_shape}, shift shape {shp} = {[str(v) for v in vals]}]"
+            ev = ck.evaluator(oracle=nonzero_shift_oracle())
+            sh = NdArr(shp, [Num(sp.Rational(v.numerator, v.denominator)) for v in vals])
+            out = ck.attempt("R1", fi.where, "time_shift(z, array) " + tag, "evaluates", lambda: ev.call(fi, [z, sh], {}), ev=ev, allowed_guards=[])
+            if out is None:
+                continue
+            d = out.attrs["_data"]
+            bm = [t for t in ev.trace if t[0] == "broadcast-mismatch"]
+            if bm:
+                ck.same("R1", fi.where, "array shift " + tag, "the shift array broadcasts against the sample shape (shift axis j <-> sample axis j)", False,
+                        found=str(bm)[:160], nontrivial=True)
+                continue
+            if not isinstance(d, Num) or d.axes is None or d.shape is None or len(d.axes) != 1 + len(sample_shape):
+                ck.unk("R1", fi.where, "array shift " + tag, "the shifted data is one indexed array term", repr(d)[:160])
+                continue
+            # which array axis carries which shift axis
+            want_pos = {j + 1: k for j, k in enumerate(shp) if k > 1}
+            got_pos = {i: ev.index_len.get(a_) for i, a_ in enumerate(d.axes) if a_ is not None and a_ in d.expr.free_symbols}
+            ok_align = {i: sp.Integer(k) for i, k in want_pos.items()} == {i: sp.sympify(k) for i, k in got_pos.items()}
+            ck.same("R1", fi.where, "array shift alignment " + tag, "shift axis j applies along sample axis j (array axis j+1), length-1 and missing axes broadcast",
+                    ok_align, found=f"element indices on array axes {got_pos}", expected=str(want_pos), nontrivial=True)
+            if not ok_align:
+                continue
+            D = z.attrs["_data"].expr
+            bad = None
+            for combo in itertools.product(*[range(k) for k in shp]):
+                sub = {d.axes[j + 1]: c for j, c in enumerate(combo) if shp[j] > 1}
+                e = d.expr.subs(sub)
+                e = e.replace(lambda t: t.func == F["Sel"] and t.args[0].is_Integer, lambda t: t.args[1 + int(t.args[0])])
+                flat = 0
+                for j, c in enumerate(combo):
+                    flat = flat * shp[j] + c
+                sv = sp.Rational(vals[flat].numerator, vals[flat].denominator)
+                exp_e = F["IFFT"](F["FFT"](D, 0) * sp.exp(-2 * sp.pi * sp.I * sv * kb / N), 0)
+                v = terms.equal(e, exp_e, seed=run.seed)
+                if v.equal is not True:
+                    bad = (combo, str(e)[:120], v.equal)
+                    break
+            n_arr += 1
+            what = "for every element of the shift array the data of the elements it broadcasts to is ifft(fft(x) * exp(-2*pi*i*s_elem*k/N))"
+            if bad is None or bad[2] is False:
+                ck.same("R1", fi.where, "array shift values " + tag, what, bad is None, found=str(bad), nontrivial=True)
+            else:
+                ck.unk("R1", fi.where, "array shift values " + tag, what, str(bad))
+    run.floor("R1", "array-shift cases decided", n_arr, 6)
     # zero shift returns the input unchanged
     z = make_signal(prog, "BasebandSignal", nchan=2)
     ev = ck.evaluator()
@@ -218,13 +352,16 @@ def check(run, prog):
                 and (out.attrs["_data"].expr == z.attrs["_data"].expr or "Allclose" in str(out.attrs["_data"].expr)), found=str(out.attrs["_data"])[:160])
     # too many dimensions is refused
     zz = make_signal(prog, "BasebandSignal", n=16, nchan=2)
-    try:
-        ck.evaluator(oracle=nonzero_shift_oracle()).call(fi, [zz, NdArr((1, 2, 1), [Num(1), Num(2)])], {})
-        ck.same("R1", fi.where, "shift with as many axes as the signal", "is refused with ValueError", False, found="accepted")
-    except Raised as e:
-        ck.same("R1", fi.where, "shift with as many axes as the signal", "is refused with ValueError", e.exc_name == "ValueError", found=str(e)[:120])
-    except Unsupported as e:
-        ck.unk("R1", fi.where, "shift with as many axes as the signal", "is refused with ValueError", str(e))
+    for shp_ in ((1, 2), (1, 2, 1)):
+        lab = f"shift with {len(shp_)} axes on a signal with 2 axes"
+        try:
+            ck.evaluator(oracle=nonzero_shift_oracle()).call(fi, [zz, NdArr(shp_, [Num(1), Num(2)])], {})
+            ck.same("R1", fi.where, lab, "is refused with ValueError (a shift axis cannot stand for the time axis)", False, found="accepted", nontrivial=True)
+        except Raised as e:
+            ck.same("R1", fi.where, lab, "is refused with ValueError (a shift axis cannot stand for the time axis)", e.exc_name == "ValueError", found=str(e)[:120],
+                    nontrivial=True)
+        except Unsupported as e:
+            ck.unk("R1", fi.where, lab, "is refused with ValueError", str(e))
 
     # ------------------------------------------------------------------ R2/R3: zero-fill coverage and extents
     n_time = 16
